@@ -134,6 +134,7 @@ def projects(draw, max_steps=9, allow_always=True, allow_clash=False):
             if draw(st.integers(0, 3)) == 0:
                 step['outs'] = ['gen/' + o for o in step['outs']]
             step['files'] = pick(file_refs('cdhb'), 0, 3)
+            step['two_lines'] = draw(st.integers(0, 2)) == 0
             step['always'] = allow_always and draw(st.integers(
                 0, 7 if nout == 1 else 3)) == 0
         elif kind == 'copy':
@@ -485,8 +486,14 @@ def script(model):
                 ['--vf-out=' + o for o in st_['outs']]
             if st_.get('env'):
                 extra += ', environment={!r}'.format(st_['env'])
-            L.append('{} = build_step({!r}, cmd={!r}, files={}{}{})'.format(
-                v, outs, cmd, files, extra,
+            if st_.get('two_lines'):
+                # a step of two command lines (both get the environment)
+                cmdkw = 'cmds={!r}'.format(
+                    [cmd, ['rec', 'AUX:{}'.format(st_['id'])]])
+            else:
+                cmdkw = 'cmd={!r}'.format(cmd)
+            L.append('{} = build_step({!r}, {}, files={}{}{})'.format(
+                v, outs, cmdkw, files, extra,
                 ', always_outdated=True' if st_['always'] else ''))
         elif kind == 'copy':
             if st_.get('mode', 'copy') != 'copy':
@@ -549,6 +556,8 @@ def executed_keys(entries):
         elif tool in ('cp', 'ln'):
             keys.append('out:' + posixpath.normpath(argv[-1]))
         elif tool in ('rec', 'rec2'):
+            if len(argv) > 1 and argv[1].startswith('AUX:'):
+                continue        # second command line of a step
             if len(argv) > 1 and argv[1].startswith(('STEP:', 'CMD:')):
                 keys.append(argv[1])
             elif len(argv) > 1:
